@@ -107,6 +107,8 @@ class Result:
         self.samples = []
         self.wall = 0.0
         self.terminal_states = 0
+        self.paths_to_terminals = 0
+        self.late_edges = 0
         self.max_depth = 0
         self.state_list = None  # optional: [(snap, model, hist)]
 
@@ -137,6 +139,8 @@ def explore(sysm, *, state_cap=200000, depth_cap=None, keep_states=False, max_vi
     depth = 0
     poisoned = set()
     alt_parent = {}
+    pathcount = {i: 1 for i in frontier}  # number of distinct event sequences (schedules) from an initial state
+    level_of = {i: 0 for i in frontier}
     try:
         while frontier:
             if depth_cap is not None and depth >= depth_cap:
@@ -169,6 +173,7 @@ def explore(sysm, *, state_cap=200000, depth_cap=None, keep_states=False, max_vi
                             res.violations.append(v)
                     if not succ:
                         res.terminal_states += 1
+                        res.paths_to_terminals += pathcount.get(idx, 0)
                     for (ei, ev, c, payload, model2, viols, obs, pois) in succ:
                         res.transitions += 1
                         for v in viols:
@@ -187,16 +192,22 @@ def explore(sysm, *, state_cap=200000, depth_cap=None, keep_states=False, max_vi
                                     poisoned.add(c)
                                 continue
                             j = len(snaps)
+                            level_of[j] = depth + 1
                             seen[c] = j
                             snaps.append(payloads[c])
                             models.append(model2)
                             parents.append((idx, ev))
                             canons.append(c)
                             nxt.append(j)
+                            pathcount[j] = pathcount.get(j, 0) + pathcount.get(idx, 0)
                         else:
                             res.merges += 1
+                            if level_of.get(j, 0) != depth + 1:
+                                res.late_edges += 1  # an edge that does not go to the next level: path counts are then a lower bound
                             if not viols and not pois:
                                 alt_parent[j] = (idx, ev)  # the LAST transition found into j (BFS keeps the first as parent)
+                            if not viols and not pois:
+                                pathcount[j] = pathcount.get(j, 0) + pathcount.get(idx, 0)
                             if not viols and not pois and models[j] != model2:
                                 res.nviol += 1
                                 if len(res.violations) < max_viol:
